@@ -19,8 +19,8 @@ func init() {
 			"external functions are deterministic functions of (symbol, per-session call index, input)",
 			"comparison stops at the first request that stops or fails (Exec after stop is documented as undefined)",
 		},
-		Real:       realAll,
-		Stub:       stubAll,
+		Real:       append(append([]string{}, realAll...), "db/fs (compiled against the simulated os)", "db/postgres"),
+		Stub:       append(append([]string{}, stubAll...), "OS filesystem (simfs)", "Postgres server (pgfake)"),
 		FaultKinds: []string{"restart", "ext_error", "client_garbage"},
 	})
 }
@@ -41,7 +41,7 @@ func runC07(c *core.Ctx) *core.Outcome {
 	t := c.T
 	o := core.NewOutcome()
 	cfg := genCfg(t)
-	cfg.Backend = world.BackMem
+	cfg.Backend = t.Weighted(3, 2, 1, 2)
 	cfg.SetSession = t.Chance(1, 2)
 	a := app.Generate(t, fullProfile(t, cfg.FlagCount))
 	if err := a.Validate(); err != nil {
@@ -52,10 +52,12 @@ func runC07(c *core.Ctx) *core.Outcome {
 	wl := world.New(a, cfg)
 	L := wl.NewSession("sess", false)
 	wp := world.New(a, cfg)
-	wp.UseMem()
+	wp.UseBackend()
+	defer wp.Close()
 	P := wp.NewSession("sess", true)
 	wm := world.New(a, cfg)
-	wm.UseMem()
+	wm.UseBackend()
+	defer wm.Close()
 	M := wm.NewSession("sess", true)
 
 	var inputs [][]byte
@@ -83,6 +85,7 @@ func runC07(c *core.Ctx) *core.Outcome {
 			o.Faults["restart"]++
 		}
 		o.States = append(o.States, stateHash(L))
+		o.Probes["backend_"+world.BackendNames[cfg.Backend]]++
 		if sl.Panic != "" || sp.Panic != "" || sm.Panic != "" {
 			// owned by C08; the comparison cannot continue
 			o.Probes["foreign_panic"]++
@@ -101,11 +104,18 @@ func runC07(c *core.Ctx) *core.Outcome {
 				i, short(string(in)), sl.Cont, sl.ExecErr, sl.FlushErr, short(sl.Out), sm.Cont, sm.ExecErr, sm.FlushErr, short(sm.Out))
 			break
 		}
+		if sl.ExecErr != "" && sl.Cont {
+			// the engine refused the input and says the session continues
+			o.Faults["client_garbage"]++
+			continue
+		}
 		if sl.ExecErr != "" || sl.FlushErr != "" || !sl.Cont {
 			if sl.ExecErr != "" {
 				o.Probes["ended_by_exec_error"]++
+				o.Probes["execerr:"+errKey(sl.ExecErr)]++
 			} else if sl.FlushErr != "" {
 				o.Probes["ended_by_flush_error"]++
+				o.Probes["flusherr:"+errKey(sl.FlushErr)]++
 			} else {
 				o.Probes["ended_by_stop"]++
 			}
